@@ -162,3 +162,217 @@ def run(ctx):
     rule_reentry(ctx)
     rule_order(ctx)
     rule_under_lock(ctx)
+
+
+# ---------------------------------------------------------------------------
+# R9: no lost wake-up -- every write that can end a condition-variable wait is followed by a wake on that cv
+
+from ..core import const_of, is_null, truth_of, strip_addr   # noqa: E402
+from .. import guards as G   # noqa: E402
+
+LIST_REMOVE = ("nni_list_remove", "nni_list_node_remove", "nni_aio_list_remove")
+LIST_ADD = ("nni_list_append", "nni_list_prepend", "nni_aio_list_append")
+
+
+def cv_key(fn, a):
+    a = fn.expand(a)
+    lf = last_field(a)
+    if lf:
+        return lf
+    a = strip_addr(a)
+    if a is not None and a.get("k") == "var" and a.get("vk") in ("local",):
+        # local alias of a condition variable: nni_cv *cv = &q->eq_cv;
+        defs = []
+        for s in fn.sites():
+            if s.node.get("k") == "decls":
+                for d in s.node["d"]:
+                    if d["n"] == a["n"] and d.get("init") is not None:
+                        defs.append(fn.expand(d["init"]))
+        for t in fn.assigns():
+            if t.node["lhs"].get("k") == "var" and t.node["lhs"]["n"] == a["n"]:
+                defs.append(fn.expand(t.node["rhs"]))
+        if len(defs) == 1 and last_field(defs[0]):
+            return last_field(defs[0])
+    if a is not None and a.get("k") == "var":
+        return "%s:%s" % ("global" if a.get("vk") in ("global", "slocal") else fn.name, a["n"])
+    return None
+
+
+def wait_conditions(prog):
+    """[(fn, wait site, cv key, {field: polarity})]: polarity +1 means the waiter keeps
+    waiting while the field is non-zero / non-empty / large, -1 while it is zero."""
+    out = []
+    for fn in prog.functions:
+        if fn.name in ("nni_cv_wait", "nni_cv_until", "nng_cv_wait", "nng_cv_until"):
+            continue
+        for s in fn.calls(("nni_cv_wait", "nni_cv_until")):
+            cv = cv_key(fn, s.node["args"][0])
+            if cv is None:
+                continue
+            # the condition that directly controls the wait: climb from the wait's block through the pieces of
+            # one while/if condition (short-circuit chain)
+            fields = {}
+            seenb = set()
+            work = [(s.b, 0)]
+            while work:
+                cur, depth = work.pop()
+                if cur in seenb or depth > 5:
+                    continue
+                seenb.add(cur)
+                for pid in fn.blocks[cur].preds:
+                    pb = fn.blocks[pid]
+                    if not pb.term or len(pb.succs) != 2 or cur not in pb.succs:
+                        # an empty forwarding block (loop body entry) is transparent
+                        if len(pb.succs) == 1 and not [e for e in pb.elems if e is not None] and depth < 3:
+                            work.append((pid, depth + 1))
+                        continue
+                    kind = pb.term.get("kind")
+                    if kind not in ("WhileStmt", "IfStmt", "&&", "||", "ForStmt", "DoStmt"):
+                        continue
+                    c = fn.cond(pid)
+                    if c is None:
+                        continue
+                    k = pb.succs.index(cur)          # edge towards the wait
+                    for n in walk(c):
+                        lf = None
+                        t = 0
+                        if n.get("k") == "mem" and n.get("t") not in ("nni_list", "nni_cv", "nni_mtx"):
+                            lf = last_field(n)
+                            t = truth_of(c, lambda x, n=n: x is n)
+                            if t == 0 and c.get("k") == "bin" and n is c["lhs"]:
+                                t = {">": 1, ">=": 1, "!=": 1, "<": -1, "<=": -1, "==": -1}.get(c["op"], 0)
+                        elif n.get("k") == "call" and n.get("fn") == "nni_list_empty" and n["args"]:
+                            lf = last_field(fn.expand(n["args"][0]))
+                            t = -truth_of(c, lambda x, n=n: x is n)
+                        if lf is None or t == 0:
+                            continue
+                        fields[lf] = t if k == 0 else -t
+                    nonref = [e for e in pb.elems if e is not None and e.get("k") != "ref"]
+                    if kind in ("&&", "||") or len(nonref) <= 1:
+                        work.append((pid, depth + 1))
+            if fields:
+                out.append((fn, s, cv, fields))
+    return out
+
+
+def rule_wakeups(ctx):
+    r = ctx.rule("C10.R9", "T2", "no lost wake-up: for every condition-variable wait loop, each write that can make its condition "
+                 "false (decrement, list removal, flag change in the releasing direction) is accompanied, in the same critical "
+                 "section, by a wake on that condition variable", floor=20)
+    prog = ctx.prog
+    from .c15 import node_lists
+    nodes = node_lists(prog)
+    waits = wait_conditions(prog)
+    r.notes.append("%d wait loops: %s" % (len(waits), "; ".join("%s@%s waits on %s while %s" % (
+        f.name, s.line, cv, ",".join("%s%s" % ("" if p > 0 else "!", k) for k, p in flds.items())) for f, s, cv, flds in waits)))
+    if len(waits) < 8:
+        raise AnalysisBroken("only %d condition-variable wait loops recognised" % len(waits))
+    # Writers that do not need a wake, one named site each.
+    EXC = {
+        ("nni_task_dispatch", "nni_task.task_busy"): "task_busy is decremented again by nni_task_exec on the task thread, which wakes",
+        ("sock_shutdown", "nni_socket.s_ctxs"): "runs once, in the first closer (s_closing latch at its entry), before that same thread "
+                                                "waits in sock_close: no other thread can be waiting on s_close_cv yet",
+        ("ws_stop", "nni_ws_dialer.wspend"): "defensive branch: every path that reaps a still-pending websocket removes it from wspend "
+                                             "(with the wake, checked by this rule) first, so ws_stop finds the node inactive",
+    }
+    for wf, ws, cv, fields in waits:
+        for fn in prog.functions:
+            if fn.cfg_failed:
+                continue
+            writes = []
+            for s in fn.sites():
+                n = s.node
+                k = n.get("k")
+                if k == "un" and n.get("op") in ("--", "++") and n["e"].get("k") == "mem":
+                    lf = last_field(n["e"])
+                    if lf in fields and ((n["op"] == "--") == (fields[lf] > 0)):
+                        writes.append(((s.b, s.i), lf, show(n)))
+                elif k == "asg" and n["lhs"].get("k") == "mem":
+                    lf = last_field(n["lhs"])
+                    if lf in fields:
+                        rhs = fn.expand(n["rhs"])
+                        if n.get("op") == "-=" and fields[lf] > 0:
+                            writes.append(((s.b, s.i), lf, show(n)))
+                        elif n.get("op") == "=":
+                            cv_ = const_of(rhs)
+                            if cv_ is not None and ((cv_ == 0) == (fields[lf] > 0)):
+                                writes.append(((s.b, s.i), lf, show(n)))
+                elif k == "call" and n.get("fn") in LIST_REMOVE and n["args"]:
+                    a0 = fn.expand(n["args"][0])
+                    lf = last_field(a0)
+                    cands = [lf] if lf in fields else []
+                    if n["fn"] == "nni_list_node_remove" and lf:
+                        rec, fld = lf.split(".", 1)
+                        cands += [l for l in nodes.get((rec, fld), ()) if l in fields]
+                    for l in cands:
+                        if fields[l] > 0:
+                            writes.append(((s.b, s.i), l, show(n)[:50]))
+            if not writes:
+                continue
+            wakes = {(s.b, s.i) for s in fn.calls(("nni_cv_wake", "nni_cv_wake1")) if cv_key(fn, s.node["args"][0]) == cv}
+            for w in list(wakes):
+                seenb = set()
+                work = [(w[0], 0)]
+                while work:
+                    cur, depth = work.pop()
+                    if cur in seenb or depth > 5:
+                        continue
+                    seenb.add(cur)
+                    for pid in fn.blocks[cur].preds:
+                        pb = fn.blocks[pid]
+                        if pb.term and len(pb.succs) == 2 and pb.term.get("kind") in ("IfStmt", "&&", "||"):
+                            wakes.add((pid, max(len(pb.elems) - 1, 0)))
+                            nonref = [e for e in pb.elems if e is not None and e.get("k") != "ref"]
+                            if pb.term.get("kind") in ("&&", "||") or len(nonref) <= 1:
+                                work.append((pid, depth + 1))
+            locks = [(s.b, s.i + 1) for s in fn.calls(LOCK)] or [(fn.entry, 0)]
+
+            def is_unlock(e):
+                return any(m.get("k") == "call" and m.get("fn") == UNLOCK for m in walk(e))
+            winfo = lockinfo(wf)
+            wheld = set()
+            for h in winfo.visits.get((ws.b, ws.i), []):
+                wheld |= {c for _, c in h}
+            finfo = lockinfo(fn)
+            for pos, lf, txt in writes:
+                fheld = set()
+                for h in finfo.visits.get(pos, []):
+                    fheld |= {c for _, c in h}
+                if wheld and fheld and not (wheld & fheld):
+                    continue      # same node/field name under a different monitor: another object family
+                if fn is wf and (ws.b, ws.i) in fn.reach((pos[0], pos[1] + 1), blocked=lambda b, i, e: is_unlock(e)):
+                    r.ob(fn, "%s line %s: the waiting thread itself re-checks the condition" % (txt, fn.line_of(*pos)))
+                    continue
+                before_free = any(pos in fn.reach(st, blocked=lambda b, i, e: (b, i) in wakes or is_unlock(e)) for st in locks)
+                after = fn.reach((pos[0], pos[1] + 1), blocked=lambda b, i, e: (b, i) in wakes)
+                # the writer "gets away" when it returns or goes to sleep itself without having woken the waiter;
+                # a temporary unlock/relock inside the function is not the end of its obligation
+                def sleeps(e):
+                    return any(m.get("k") == "call" and m.get("fn") in ("nni_cv_wait", "nni_cv_until") for m in walk(e))
+                leak = [(b, i) for (b, i) in after if (b, i) == (fn.exit, 0) or
+                        (i < len(fn.blocks[b].elems) and fn.blocks[b].elems[i] is not None and sleeps(fn.blocks[b].elems[i]))]
+                if not before_free or not leak:
+                    r.ob(fn, "%s line %s: wake on %s in the same critical section" % (txt, fn.line_of(*pos), cv))
+                elif (fn.name, lf) in EXC:
+                    r.exception("%s %s" % (fn.name, lf), EXC[(fn.name, lf)])
+                    r.ob(fn, "excepted")
+                elif fn.name.endswith(("_init", "_create", "_alloc")):
+                    r.ob(fn, "initialisation of %s (no waiter can exist yet)" % lf)
+                else:
+                    ctx.fail(r, fn, "%s without wake on %s" % (txt.replace(" ", ""), cv.split(".")[-1]), fn.line_of(*pos),
+                             "%s can make the condition awaited at %s:%s (%s) false, but the critical section ends (line %s) "
+                             "without nni_cv_wake on %s: a thread blocked there (e.g. in close) is never released"
+                             % (txt, wf.name, ws.line, ",".join(fields), fn.line_of(*leak[0]), cv))
+
+
+_run0 = run
+
+
+def run(ctx):   # noqa: F811
+    _run0(ctx)
+    rule_wakeups(ctx)
+    from . import c02
+    c02.rule_a7(ctx)
+    for rr in ctx.rules:
+        if rr.id == "C02.A7":
+            rr.id = "C10.R6"
